@@ -3,8 +3,8 @@ k("C15",
   "Bounded model checking of the real Source/adapter/StreamError code: for every sequence of <=4 items, every single source- or sink-fault position, "
   "all adapter chains up to depth 2 (+3 of depth 3) and both driving modes, CBMC proves the consumer sees exactly the reference prefix and the error "
   "side/payload is right; the same for a multi-item-per-step source, for map/filter_map(..).into_iter(), for the Rio adapters over a harness parser, for "
-  "insert_all/remove_all on the real in-memory stores (content checked through secondary indexes) and for NtSerializer with a failing writer. "
-  "Exhaustive inside the bound; nothing is sampled.",
+  "insert_all/remove_all/from_*_source on the real in-memory stores (content checked through secondary indexes) and for Nt/NqSerializer with a failing writer. "
+  "Exhaustive inside the bound. A native fault corpus (real serializers, stores and Turtle parser, every single-fault position, dev+release) is run in addition and labelled as not solver-decided.",
   "Trusted: Kani/CBMC/cadical, rustc MIR semantics as modelled by Kani; VecDeque and BTreeSet models. Harness iterator/sink/parser stand for user code. Outside: real parsers as sources, sequences >4.",
   "Kani proof harnesses (symbolic items + fault positions) decided by CBMC/SAT; counterexamples replayed natively with cargo kani playback",
   "DESIGN.md 4 C15")
